@@ -814,6 +814,34 @@ func c10RunDocs(c *Ctx, ld, rd *gedcom.Document, l, r *c10ADoc, shape, via strin
 			bad[p] = true
 		}
 	}
+	// away(p): what references_resolve_iff (Props/C10Refs.lean) proves to be the only way a HUSB / WIFE /
+	// CHIL line can come to name nobody: p is carried by no left individual, by some right individual,
+	// and every right individual carrying it is the right half of a merged pair. Computed here from the
+	// inputs and the matching, by the driver from the model (`mergedAway`): the rows below carry both.
+	away := func(p string) bool {
+		for _, a := range l.Indis {
+			if a.Ptr == p {
+				return false
+			}
+		}
+		some := false
+		for j, b := range r.Indis {
+			if b.Ptr != p {
+				continue
+			}
+			some = true
+			paired := false
+			for _, m := range ms {
+				if m.L >= 0 && m.R == j {
+					paired = true
+				}
+			}
+			if !paired {
+				return false
+			}
+		}
+		return some
+	}
 	// the markers of the individual a pointer names in an input; ok = it names exactly one record
 	markerOf := func(side *c10ADoc, ptr string) (markers []string, ok bool) {
 		n := 0
@@ -865,7 +893,17 @@ func c10RunDocs(c *Ctx, ld, rd *gedcom.Document, l, r *c10ADoc, shape, via strin
 		}
 		if !ok {
 			msg := fmt.Sprintf("%s: %s @%s@ names %d individual record(s)", where, rf[0], rf[1], len(ks))
-			if bad[rf[1]] {
+			known := bad[rf[1]]
+			if len(ks) == 0 {
+				// a line that names nobody is the known finding only in the shape the theorem allows
+				known = away(rf[1])
+				if known {
+					c.Count("dangling:target-merged-away")
+				} else {
+					c.Count("dangling:other (outside the finding by references_resolve_iff)")
+				}
+			}
+			if known {
 				brokenKnown = append(brokenKnown, msg)
 			} else {
 				broken = append(broken, msg)
@@ -960,18 +998,23 @@ func c10RunDocs(c *Ctx, ld, rd *gedcom.Document, l, r *c10ADoc, shape, via strin
 	}
 	enc(l)
 	enc(r)
-	// observation: sorted "I ptr | F ptr" records and "(owner role target nIndi nFam)" rows
+	// observation: sorted "I ptr | F ptr" records and "(owner role target nIndi nFam away)" rows
 	var rows []string
+	nAway := 0
 	for _, oi := range o.Indis {
 		rows = append(rows, fmt.Sprintf("I%d", id(oi.Ptr)))
 		for _, rf := range oi.Refs {
-			rows = append(rows, fmt.Sprintf("r%d.%d.%d.%d.%d", id(oi.Ptr), role[rf[0]], id(rf[1]), len(outByPtr[rf[1]]), famByPtr[rf[1]]))
+			rows = append(rows, fmt.Sprintf("r%d.%d.%d.%d.%d.0", id(oi.Ptr), role[rf[0]], id(rf[1]), len(outByPtr[rf[1]]), famByPtr[rf[1]]))
 		}
 	}
 	for _, of := range o.Fams {
 		rows = append(rows, fmt.Sprintf("F%d", id(of.Ptr)))
 		for _, rf := range of.Refs {
-			rows = append(rows, fmt.Sprintf("r%d.%d.%d.%d.%d", id(of.Ptr), role[rf[0]], id(rf[1]), len(outByPtr[rf[1]]), famByPtr[rf[1]]))
+			aw := away(rf[1])
+			if aw {
+				nAway++
+			}
+			rows = append(rows, fmt.Sprintf("r%d.%d.%d.%d.%d.%s", id(of.Ptr), role[rf[0]], id(rf[1]), len(outByPtr[rf[1]]), famByPtr[rf[1]], bit(aw)))
 		}
 	}
 	sort.Strings(rows)
@@ -979,7 +1022,12 @@ func c10RunDocs(c *Ctx, ld, rd *gedcom.Document, l, r *c10ADoc, shape, via strin
 	if len(rows) > 0 {
 		obs = strings.Join(rows, " ")
 	}
-	c.Tie(req.String(), obs)
+	c.Tie(req.String(), obs+fmt.Sprintf(" dangling=%d", nAway))
+	if nAway > 0 {
+		c.Count("mergeg:some-target-merged-away")
+	} else {
+		c.Count("mergeg:no-target-merged-away")
+	}
 
 	// (T2) the whole merged document against the composed model (C11 results -> C09 MergeNodes on
 	// the fact subtrees -> MergeNodeSlices on the other records), records in order
